@@ -33,6 +33,10 @@ import (
 
 // Options describes one client/server world.
 type Options struct {
+	// Bundle: certificate files are bundles - the leaf followed by its issuer - where the issuer
+	// is not the configured CA (the "untrusted" server certificate and the "foreign" client
+	// certificate are followed by the foreign CA's certificate). Trust must not change.
+	Bundle bool
 	// CertFiles: "" = certificate material is given inline (PEM text in the configuration);
 	// "abs" = through files named by absolute paths; "rel" = through files named relative to
 	// the configuration file's directory (args.General.ConfigurationFilePath).
@@ -173,6 +177,14 @@ func New(o Options) (*World, error) {
 		w.CliCfg.Certificate, w.CliCfg.PrivateKey = o.PKI.ForeignCl.CertPEM, o.PKI.ForeignCl.KeyPEM
 	}
 	w.CliCfg.InsecureSkipVerify = o.Insecure
+	if o.Bundle {
+		if o.ServerCert == "untrusted" {
+			w.SrvCfg.Certificate = strings.TrimSpace(w.SrvCfg.Certificate) + "\n" + o.PKI.ForeignCA
+		}
+		if o.ClientCert == "foreign" {
+			w.CliCfg.Certificate = strings.TrimSpace(w.CliCfg.Certificate) + "\n" + o.PKI.ForeignCA
+		}
+	}
 	if o.CertFiles != "" {
 		if err := w.certsToFiles(o); err != nil {
 			return nil, err
